@@ -74,8 +74,8 @@ PARTS = {'element': _elem.element_part, 'values': values_part, 'doc': doc_part, 
 SOURCES = {
     'C04': ['values'], 'C05': ['values'],
     'C08': ['doc'], 'C09': ['doc'], 'C14': ['doc'],
-    'C01': ['element', 'suite'], 'C02': ['element', 'suite'], 'C06': ['element', 'suite'], 'C07': ['element', 'suite', 'mc'],
-    'C11': ['element'], 'C12': ['element', 'suite'], 'C18': ['element', 'suite'],
+    'C01': ['element', 'suite', 'doc'], 'C02': ['element', 'suite'], 'C06': ['element', 'suite'], 'C07': ['element', 'suite', 'mc'],
+    'C11': ['element'], 'C12': ['element', 'suite'], 'C18': ['element', 'suite', 'doc'],
     'C10': ['element', 'values', 'suite'], 'C15': ['element', 'values', 'suite'], 'C16': ['element', 'values', 'doc', 'suite'],
     'C19': ['element', 'values', 'doc', 'suite'],
 }
